@@ -67,7 +67,8 @@ def run(db, chk) -> None:
     R = runs[0].ret.items[0]
     STREAM, DELAY = T.P("stream"), T.P("consecutive_kernel_delay")
     idle_t = R.col("idle_time")
-    gbs = [e for e in runs[0].events if e["kind"] == "groupby-agg" and "idle_interval" in e["cols"]]
+    # the per-category aggregation, whatever the output column is called (classic `["idle_interval"].sum()` or named aggregation idle_time=("idle_interval", "sum"))
+    gbs = [e for e in runs[0].events if e["kind"] == "groupby-agg" and ("idle_interval" in e["cols"] or (e["keys"] == ["idle_category"] and e["cols"]))]
     if T.has_opaque(idle_t) or len(gbs) != 1:
         chk.ob("C06.R3-totals", "idle_time is a per-category aggregate of the gap column", None, where, found=T.show(idle_t)[:300])
         return
@@ -197,6 +198,12 @@ def run(db, chk) -> None:
     check_term(chk, "C06.R4-selection", "streams default = every stream present among the selected kernels", where2, to_term(st), [exp_st])
     # name map agreement
     nm = next((v for v in r0.env.values() if isinstance(v, dict) and v and all(isinstance(k, int) for k in v) and all(isinstance(x, str) for x in v.values())), None)
+    if nm is None:
+        # the map may live outside the function (class-level / module-level constant): read it off the rename it is used in
+        for e_ in [e for e in r0.events if e["kind"] == "rename-index" and e["func"].endswith("get_idle_time_breakdown")]:
+            mt = e_["mapper"]
+            if isinstance(mt, tuple) and mt and mt[0] == "dict" and all(T.is_const(k_) and T.is_const(v_) for k_, v_ in mt[1]):
+                nm = {k_[1]: v_[1] for k_, v_ in mt[1]}
     want = {v: k.lower() for k, v in enum.items()}
     chk.ob("C06.R2-enum-agreement", "category values written are mapped back to host_wait / kernel_wait / other", isinstance(nm, dict) and nm == want and
            set(want.values()) == {"host_wait", "kernel_wait", "other"}, where2, found=nm if isinstance(nm, dict) else T.show(to_term(nm))[:200], accepted=want)
@@ -206,30 +213,15 @@ def run(db, chk) -> None:
     chk.floor("C06.R1-launch-join", 5)
     chk.floor("C06.R4-selection", 4)
 
-    # ---------------------------------------------------------------- facade binding
+    # ---------------------------------------------------------------- facade binding (decided by evaluating the wrapper with the analyzer hooked)
     ta = db.mod("hta.trace_analysis")
     fac = ta.func("TraceAnalysis.get_idle_time_breakdown")
-    cs = [c for c in H.calls(fac) if isinstance(c.func, ast.Attribute) and c.func.attr == "get_idle_time_breakdown"]
-    if len(cs) != 1:
-        raise AnalysisError("facade delegation not found")
-    bnd = H.bind_call(f2, cs[0])
-
+    from ..specs.discipline import check_facade_binding
+    from ..core.values import PyTuple as _PT
     for _p, _src, _v in H.rebinds_of_params(fac, ["consecutive_kernel_delay", "streams", "visualize", "visualize_pctg", "show_idle_interval_stats"]):
         chk.ob("C06.R-facade-integrity", f"facade forwards parameter {_p} unmodified", _v == "default-if-none", ta.loc(fac), found=_src, accepted="no re-binding, or `if p is None: p = <default>`",
                why="`p = p or default` replaces legitimate falsy values (a threshold of 0, an empty selection) by the default")
-    def derives(arg, pn):
-        """the argument is the facade's like-named parameter, or a loop variable over the facade's plural parameter (rank <- ranks)"""
-        if H.name_id(arg) == pn and pn in H.param_names(fac):
-            return True
-        if isinstance(arg, ast.Name):
-            for lp in [n for n in ast.walk(fac) if isinstance(n, (ast.For, ast.comprehension)) and H.name_id(n.target) == arg.id]:
-                if H.name_id(lp.iter) == pn + "s" and (pn + "s") in H.param_names(fac):
-                    return True
-        return False
-    for pn in ("consecutive_kernel_delay", "rank", "streams", "visualize", "visualize_pctg", "show_idle_interval_stats"):
-        got = bnd.get(pn)
-        chk.ob("C06.R5-binding", f"facade argument -> parameter {pn}", derives(got, pn), ta.loc(cs[0]), found=ast.unparse(got) if got is not None else None, accepted=pn,
-               why="positional arguments bound to another parameter silently change threshold / rank / stream selection")
-    chk.ob("C06.R5-binding", "facade passes its trace", H.is_self_attr(bnd.get("t"), "t"), ta.loc(cs[0]), found=ast.unparse(bnd["t"]) if "t" in bnd else None, accepted="self.t")
+    check_facade_binding(db, chk, "C06.R5-binding", "TraceAnalysis.get_idle_time_breakdown", BA, "BreakdownAnalysis.get_idle_time_breakdown", plural={"rank": "ranks"},
+                         returns=lambda I: _PT([Frame(("idle", I.new_id())), None]))
     # facade default for the threshold parameter flows from the documented default
     chk.floor("C06.R5-binding", 8)
